@@ -507,7 +507,15 @@ BIG_SRC = ["swap", "rzx", "ryy", "crx"]       # bases with non-singleton gate ob
 SMALL_SRC = ["cx", "rzz", "cz"]               # 6-map bases of singleton gates only
 
 
+SPECIAL_ANGLES = [np.pi, 2 * np.pi, -np.pi, 3 * np.pi, 4 * np.pi, np.pi * (1 + 2.0 ** -40), 2 * np.pi * (1 - 2.0 ** -42), np.pi / 2]
+
+
 def _angle(rng):
+    """dyadic angles, and (one in four) special ones: multiples of pi / 2 pi and neighbours, where a QPD basis has NONZERO
+    coefficients far below the 1e-14 cut-off (RZZ(pi): 3.7e-33 and 6.1e-17) - derived fields such as basis.probabilities
+    are then sensitive to in-place clean-ups"""
+    if rng.random() < 0.25:
+        return float(SPECIAL_ANGLES[int(rng.integers(0, len(SPECIAL_ANGLES)))])
     return float(rng.integers(1, 8)) / 8.0
 
 
